@@ -9,7 +9,8 @@ import (
 )
 
 func DecodeBase64(raw []byte) ([]byte, error) {
-	ret := make([]byte, base64x.StdEncoding.DecodedLen(len(raw)))
+	// the decoder accepts a last group without its padding and then writes 1-2 bytes more than DecodedLen says
+	ret := make([]byte, (len(raw)+3)/4*3)
 	n, err := base64x.StdEncoding.Decode(ret, raw)
 	if err != nil {
 		return nil, err
